@@ -362,6 +362,9 @@ def self_test():
                     tuple(s))
         except pl.Refusal as r:
             return ("refused", r.kind)
+        except (pl.Ambiguous, pl.AssociationViolation) as e:
+            # (the lattice run itself reports a wrong association)
+            return (type(e).__name__, )
 
     for name, values in DIMS:
         ctxs = [base, dict(base, align="as", t_max_diff=0.3),
@@ -414,7 +417,7 @@ def lattice_points(ctx):
             pts.append(q)
     # one-sided time ranges and a negative offset x the steps that depend on
     # which poses remain
-    sub4 = [("crop", [(2.0, None), (None, 3.0), (1.5, 3.5)]),
+    sub4 = [("crop", [None, (2.0, None), (None, 3.0), (1.5, 3.5)]),
             ("t_offset", [0.0, -0.26, 0.125]), ("t_max_diff", [0.01, 0.3]),
             ("relation", ["full", "trans_part", "angle_deg"]),
             ("align", DIMS[1][1]), ("downsample", [None, 5]),
